@@ -858,6 +858,27 @@ def raw_eq(m, st, inst, args, t):
     return values_equal(m, st, va, vb)
 
 
+@prim("std::intrinsics::compare_bytes")
+def compare_bytes(m, st, inst, args, t):
+    """memcmp over n bytes (slice equality / ordering, starts_with, ends_with)."""
+    a, b, n = args
+    if a[0] != "ptr" or b[0] != "ptr" or n[0] != "int" or n[1] > 64:
+        raise Unanalysable("compare_bytes on %s,%s,%s" % (a[0], b[0], n[0]))
+    u8 = None
+    for i, ty in enumerate(m.p.types):
+        if ty and ty["k"] == "int" and ty["size"] == 1 and not ty["signed"]:
+            u8 = i
+            break
+    for i in range(n[1]):
+        va = m.read_loc(st, m.elem_loc(st, a[1], mk_int(i, 64)), u8)
+        vb = m.read_loc(st, m.elem_loc(st, b[1], mk_int(i, 64)), u8)
+        eq = m.concretize(st, m.binop(st, "Eq", va, vb))
+        if eq[1] == 0:
+            lt = m.concretize(st, m.binop(st, "Lt", va, vb))
+            return mk_int(-1 if lt[1] else 1, 32, True)
+    return mk_int(0, 32, True)
+
+
 def values_equal(m, st, va, vb):
     if va[0] == "agg" and vb[0] == "agg" and len(va[1]) == len(vb[1]):
         for x, y in zip(va[1], vb[1]):
